@@ -664,12 +664,19 @@ def run_batch(spec):
                             run_debouncer(b, cfg, ins, hp)
                             continue
                         if what == "deb":
-                            for variant in range(3):
+                            for variant in range(4):
                                 cfg = deb_cfg(r)
                                 cfg.pop("stop_after", None)
-                                hp = {"qualname": pt[1], "line": pt[2], "nth": r.choice([1, 1, 2]), "stop_while_held": variant == 2}
+                                hp = {"qualname": pt[1], "line": pt[2], "nth": r.choice([1, 1, 2]), "stop_while_held": variant >= 2}
                                 if variant == 1:
                                     cfg["gaps"] = [0.0]
+                                if variant == 3:
+                                    # start() immediately followed by stop(), no event at all: stop() lands while the thread stands at
+                                    # this line on its way to its very first wait - the thread must still exit
+                                    cfg["gaps"] = []
+                                    cfg.pop("reenter", None)
+                                    hp["nth"] = 1
+                                    b.count("debouncer_stop_before_first_wait_cases")
                                 run_debouncer(b, cfg, ins, hp)
                         else:
                             for variant in range(3):
